@@ -223,3 +223,69 @@ def get_pushed_variable(g: 'Graph', triple: 'val') -> 'val':
                                lambda j, e: is_inst(e, 'Push') and result == e.variable
                                and forall_idx(markers_of(g.epidata, triple), lambda k, f: k >= j or not is_inst(f, 'Push')))))
     invariant(0, lambda: forall_idx(markers_of(g.epidata, triple), lambda k, f: k >= _i or not is_inst(f, 'Push')))
+
+
+# ---- configuration data (C02, C03, C06): markers shape the text, never the content ---------------
+
+@spec
+def entry_triples(data: 'list') -> 'list':
+    """the triples of the configuration data, in order (POP markers between them are skipped)"""
+    if len(data) == 0:
+        return []
+    if is_tuple(data[-1]):
+        return entry_triples(data[:-1]) + [data[-1][0]]
+    return entry_triples(data[:-1])
+
+
+@spec
+def same_or_inverted(model: 'Model', t: 'val', orig: 'val') -> 'bool':
+    """the triple as it is in the graph, or -- never for an instance triple -- inverted once"""
+    return t == orig or (orig[1] != ':instance' and t == (orig[2], inv_role(model, orig[1]), orig[0]))
+
+
+@spec
+def datum_ok(d: 'val') -> 'bool':
+    """a POP, or (triple, push?, [markers that are not layout markers])"""
+    return is_inst(d, 'Pop') or (is_tuple(d) and len(d) == 3 and is_bool(d[1]) and is_list(d[2])
+                                 and forall_idx(d[2], lambda m, e: not is_inst(e, 'LayoutMarker')))
+
+
+@contract('penman.layout:_preconfigure')
+def _preconfigure(g: 'Graph', model: 'Model') -> 'list':
+    requires(wf_triples(g.triples))
+    requires(forall_idx(g.triples, lambda k, t: epis_wf(markers_of(g.epidata, t))))
+    # every triple of the graph appears exactly once, in order, as it is or inverted once -- whatever
+    # the markers say (markers naming other variables, repeated ones and those on instance triples
+    # are ignored); nothing else is in the data but POPs
+    ensures(len(entry_triples(result)) == len(g.triples), label='one-entry-per-triple')
+    ensures(forall_idx(g.triples, lambda k, t: same_or_inverted(model, entry_triples(result)[k], t)), label='content')
+    ensures(forall_idx(result, lambda j, d: datum_ok(d)), label='shape')
+    invariant(0, lambda: is_list(data) and len(entry_triples(data)) == _i)
+    invariant(0, lambda: forall_idx(g.triples, lambda k, t: k >= _i or same_or_inverted(model, entry_triples(data)[k], t)))
+    invariant(0, lambda: forall_idx(data, lambda j, d: datum_ok(d)))
+    invariant(1, lambda: same_or_inverted(model, triple, g.triples[_i0]))
+    invariant(1, lambda: triple == g.triples[_i0] or var in pushed)
+    invariant(1, lambda: var == g.triples[_i0][0] and role == g.triples[_i0][1] and target == g.triples[_i0][2])
+    invariant(1, lambda: is_list(pops) and forall_idx(pops, lambda m, e: is_inst(e, 'Pop')))
+    invariant(1, lambda: is_list(epis) and forall_idx(epis, lambda m, e: not is_inst(e, 'LayoutMarker')))
+    invariant(1, lambda: is_bool(push))
+    use('loop0.step', lambda: pops_add_no_entries(at_iteration_start(0, data) + [(triple, push, epis)], pops))
+    use('loop0.step', lambda: entry_adds_its_triple(at_iteration_start(0, data), (triple, push, epis)))
+
+
+@lemma
+def entry_adds_its_triple(xs: 'list', d: 'val'):
+    requires(is_tuple(d))
+    ensures(entry_triples(xs + [d]) == entry_triples(xs) + [d[0]])
+    # the same, element by element (the form the solvers can use under a quantifier)
+    ensures(len(entry_triples(xs + [d])) == len(entry_triples(xs)) + 1)
+    ensures(entry_triples(xs + [d])[len(entry_triples(xs))] == d[0])
+    ensures(forall_idx(entry_triples(xs), lambda k, t: entry_triples(xs + [d])[k] == t))
+
+
+@lemma
+def pops_add_no_entries(xs: 'list', ps: 'list'):
+    """POP markers appended to the configuration data add no triple"""
+    requires(forall_idx(ps, lambda m, e: is_inst(e, 'Pop')))
+    ensures(entry_triples(xs + ps) == entry_triples(xs))
+    induct('0', lambda: ps)
